@@ -847,7 +847,13 @@ func (up4 *UP4) addInternalApplicationIDAndGetP4rtEntry(pdr pdr) (*p4.TableEntry
 	return applicationsEntry, up4Application.id, nil
 }
 
-func (up4 *UP4) removeInternalApplicationIDAndGetP4rtEntry(pdr pdr) (*p4.TableEntry, uint8) {
+// getApplicationsEntryToRemove returns the application ID of the PDR's filter and, if the
+// PDR is the last user of that application, the applications entry to delete together
+// with the PDR's entries. The bookkeeping is left as it is: the reference and the ID are
+// given up by removeInternalApplicationID once the delete has been written. Giving them
+// up first let another filter take the ID while its entries were still installed whenever
+// the write failed (the session stays, and so do its entries).
+func (up4 *UP4) getApplicationsEntryToRemove(pdr pdr) (*p4.TableEntry, uint8) {
 	up4.applicationMu.Lock()
 	defer up4.applicationMu.Unlock()
 
@@ -858,11 +864,12 @@ func (up4 *UP4) removeInternalApplicationIDAndGetP4rtEntry(pdr pdr) (*p4.TableEn
 		return nil, 0
 	}
 
-	internalApp.usedBy.Remove(internalAppReference{
+	ref := internalAppReference{
 		pdr.fseID, pdr.pdrID,
-	})
+	}
 
-	if internalApp.usedBy.Cardinality() != 0 {
+	if !internalApp.usedBy.Contains(ref) || internalApp.usedBy.Cardinality() != 1 {
+		// in use by other PDRs
 		return nil, internalApp.id
 	}
 
@@ -871,9 +878,29 @@ func (up4 *UP4) removeInternalApplicationIDAndGetP4rtEntry(pdr pdr) (*p4.TableEn
 		return nil, internalApp.id
 	}
 
-	up4.unsafeReleaseInternalApplicationID(appFilter)
-
 	return applicationsEntry, internalApp.id
+}
+
+// removeInternalApplicationID drops the PDR's reference to its application and releases
+// the application ID if nobody uses it any more.
+func (up4 *UP4) removeInternalApplicationID(pdr pdr) {
+	up4.applicationMu.Lock()
+	defer up4.applicationMu.Unlock()
+
+	appFilter := toUP4ApplicationFilter(pdr)
+
+	internalApp, exists := up4.applicationIDs[appFilter]
+	if !exists {
+		return
+	}
+
+	internalApp.usedBy.Remove(internalAppReference{
+		pdr.fseID, pdr.pdrID,
+	})
+
+	if internalApp.usedBy.Cardinality() == 0 {
+		up4.unsafeReleaseInternalApplicationID(appFilter)
+	}
 }
 
 func (up4 *UP4) allocateAppMeterCellID() (uint32, error) {
@@ -1343,7 +1370,7 @@ func (up4 *UP4) modifyUP4ForwardingConfiguration(pdrs []pdr, allFARs []far, qers
 					applicationID = appID
 				}
 			} else {
-				entry, appID := up4.removeInternalApplicationIDAndGetP4rtEntry(pdr)
+				entry, appID := up4.getApplicationsEntryToRemove(pdr)
 				if entry != nil {
 					entriesToApply = append(entriesToApply, entry)
 				}
@@ -1407,6 +1434,11 @@ func (up4 *UP4) modifyUP4ForwardingConfiguration(pdrs []pdr, allFARs []far, qers
 
 				return ErrOperationFailedWithReason("applying table entries to UP4", p4Error.Error())
 			}
+		}
+
+		if methodType == p4.Update_DELETE && !pdr.IsAppFilterEmpty() {
+			// the entries are gone: only now is the application unused by this PDR
+			up4.removeInternalApplicationID(pdr)
 		}
 	}
 
